@@ -443,6 +443,10 @@ func (s *blsThresholdSignatureInspector) reconstructThresholdSignature() (Signat
 	shares := make([]byte, 0, len(s.shares)*SignatureLenBLSBLS12381)
 	signers := make([]index, 0, len(s.shares))
 	for index, share := range s.shares {
+		// a share of an invalid length does not serialize to a valid E1 point
+		if len(share) != SignatureLenBLSBLS12381 {
+			return nil, fmt.Errorf("share of signer %d has an invalid length: %w", index, errInvalidSignature)
+		}
 		shares = append(shares, share...)
 		signers = append(signers, index+1)
 	}
@@ -528,7 +532,14 @@ func BLSReconstructThresholdSignature(size int, threshold int,
 	flatShares := make([]byte, 0, SignatureLenBLSBLS12381*(threshold+1))
 	indexSigners := make([]index, 0, threshold+1)
 	for i, share := range shares {
-		flatShares = append(flatShares, share...)
+		// only the first (threshold+1) shares are used in the reconstruction
+		if i <= threshold {
+			// a share of an invalid length does not serialize to a valid E1 point
+			if len(share) != SignatureLenBLSBLS12381 {
+				return nil, fmt.Errorf("share at index %d has an invalid length: %w", i, errInvalidSignature)
+			}
+			flatShares = append(flatShares, share...)
+		}
 		// check the index is valid
 		if signers[i] >= size || signers[i] < 0 {
 			return nil, invalidInputsErrorf(
